@@ -182,12 +182,14 @@ Definition charge (o : op) (c : Q) : Q :=
   | OpPause _ _ dt | OpStop _ dt => clock_after_stop c dt
   | OpBusy => c
   | OpSleep => c + sleep_time S_
+  | OpAdvanceTo to => qmax to c
   end.
 Definition outside (o : op) : Q :=
   match o with
   | OpStart _ dt | OpResume _ _ dt | OpFetch _ dt | OpPause _ _ dt | OpStop _ dt => dt
   | OpBusy => 0
   | OpSleep => sleep_time S_
+  | OpAdvanceTo _ => 0
   end.
 
 Lemma set_status_clock st t s : clock (set_status st t s) = clock st.
@@ -198,7 +200,7 @@ Proof. unfold set_config. destruct (nth_error (trials st) t); reflexivity. Qed.
 Lemma step_clock st o st' out : step st o = Ok (st', out) ->
   0 <= outside o /\ clock st' == charge o (clock st).
 Proof.
-  destruct o as [c dt|t newc dt|t lvl dt|t dt|ids dt| |]; cbn [Sim.step outside charge]; unfold bind.
+  destruct o as [c dt|t newc dt|t lvl dt|t dt|ids dt| | |to]; cbn [Sim.step outside charge]; unfold bind.
   - destruct (Sim.schedule S_ tbl draw st (length (trials st)) dt) as [st1|] eqn:E; [|discriminate].
     intro H. injection H as <- _. simpl. eapply schedule_clock; eauto.
   - destruct (nth_error (trials st) t) as [tr|]; [|discriminate].
@@ -222,6 +224,7 @@ Proof.
     intro H. injection H as <- _. apply process_now_clock in E. rewrite E. split; [lra|reflexivity].
   - destruct (advance st (sleep_time S_)) as [st1|] eqn:E; [|discriminate].
     intro H. injection H as <- _. apply advance_ok in E as (H0 & Hc & _). split; assumption.
+  - intro H. injection H as <- _. split; [lra|reflexivity].
 Qed.
 
 Lemma step_clock_monotone st o st' out : step st o = Ok (st', out) -> clock st <= clock st'.
@@ -230,6 +233,7 @@ Proof.
   destruct o; simpl in *; try lra.
   - pose proof (clock_after_stop_ge (clock st) dt). lra.
   - pose proof (clock_after_stop_ge (clock st) dt). lra.
+  - apply qmax_ge_r.
 Qed.
 
 (* operation sequences *)
@@ -747,7 +751,7 @@ Lemma step_inv st o st' out : Inv st -> step st o = Ok (st', out) ->
   | _ => True
   end.
 Proof.
-  intro HI. destruct o as [c dt|t newc dt|t lvl dt|t dt|ids dt| |]; cbn [Sim.step]; unfold bind.
+  intro HI. destruct o as [c dt|t newc dt|t lvl dt|t dt|ids dt| | |to]; cbn [Sim.step]; unfold bind.
   - destruct (Sim.schedule S_ tbl draw st (length (trials st)) dt) as [st1|] eqn:E; [|discriminate].
     intro H. injection H as <- <-. split; [|exact I]. eapply schedule_inv in E; eauto.
   - destruct (nth_error (trials st) t) as [tr|]; [|discriminate].
@@ -775,6 +779,7 @@ Proof.
     intro H. injection H as <- <-. split; [|exact I]. eapply process_inv; eauto.
   - destruct (advance st (sleep_time S_)) as [st1|] eqn:E; [|discriminate].
     intro H. injection H as <- <-. split; [|exact I]. eapply advance_inv; eauto.
+  - intro H. injection H as <- <-. split; [exact HI|exact I].
 Qed.
 
 Lemma Inv_init : Inv init_state.
@@ -1094,7 +1099,7 @@ Proof. unfold set_config. destruct (nth_error (trials st) t); auto. Qed.
 
 Lemma step_hinv st o st' out : HInv st -> step st o = Ok (st', out) -> HInv st'.
 Proof.
-  intro HI. destruct o as [c dt|t newc dt|t lvl dt|t dt|ids dt| |]; cbn [Sim.step]; unfold bind.
+  intro HI. destruct o as [c dt|t newc dt|t lvl dt|t dt|ids dt| | |to]; cbn [Sim.step]; unfold bind.
   - destruct (Sim.schedule S_ tbl draw st (length (trials st)) dt) as [st1|] eqn:E; [|discriminate].
     intro H. injection H as <- _. eapply schedule_hinv in E; eauto.
   - destruct (nth_error (trials st) t) as [tr|]; [|discriminate].
@@ -1119,6 +1124,7 @@ Proof.
     intro H. injection H as <- _. eapply process_hinv; eauto.
   - destruct (advance st (sleep_time S_)) as [st1|] eqn:E; [|discriminate].
     intro H. injection H as <- _. eapply advance_hinv; eauto.
+  - intro H. injection H as <- _. exact HI.
 Qed.
 
 Lemma HInv_init : HInv init_state.
@@ -1390,7 +1396,7 @@ Lemma step_io st o st' out : IO st -> step st o = Ok (st', out) -> IO st'.
 Proof.
   intros HIO Hs. destruct HIO as [HI HO].
   pose proof (step_inv _ _ _ _ HI Hs) as [HI' _]. split; [exact HI'|].
-  revert Hs. destruct o as [c dt|t newc dt|t lvl dt|t dt|ids dt| |]; cbn [Sim.step]; unfold bind.
+  revert Hs. destruct o as [c dt|t newc dt|t lvl dt|t dt|ids dt| | |to]; cbn [Sim.step]; unfold bind.
   - unfold Sim.schedule, bind. destruct (advance st dt) as [st1|] eqn:E1; [|discriminate].
     destruct (Sim.process_now S_ tbl draw st1) as [st2|] eqn:E2; [|discriminate].
     intro H. injection H as <- _. simpl.
@@ -1464,6 +1470,7 @@ Proof.
     intro H. injection H as <- _. exact HO1.
   - destruct (advance st (sleep_time S_)) as [st1|] eqn:E; [|discriminate].
     apply advance_ok in E as (_ & _ & ->). intro H. injection H as <- _. exact HO.
+  - intro H. injection H as <- _. exact HO.
 Qed.
 
 Lemma IO_init : IO init_state.
